@@ -39,11 +39,22 @@ type PreStop struct {
 	How  string `json:"how"` // stop | poison: by a third party, awaited, before the final shutdown
 }
 
+// ConcStop is a Stop/Poison by a third party that is NOT awaited before the final shutdown: it
+// is issued just before ("before"), just after ("after") or from another goroutine released
+// together with ("race") the shutdown call, for a node inside the subtree that is shut down
+// (the target itself included: a second stop request for the same actor).
+type ConcStop struct {
+	Node int    `json:"node"`
+	How  string `json:"how"`  // stop | poison
+	When string `json:"when"` // before | after | race
+}
+
 type TCase struct {
-	Nodes  []Node    `json:"nodes"`
-	Pre    []PreStop `json:"pre"`
-	Target int       `json:"target"`
-	How    string    `json:"how"` // stop | poison | crash (a panic with MaxRestarts 0)
+	Nodes  []Node     `json:"nodes"`
+	Pre    []PreStop  `json:"pre"`
+	Conc   []ConcStop `json:"conc,omitempty"`
+	Target int        `json:"target"`
+	How    string     `json:"how"` // stop | poison | crash (a panic with MaxRestarts 0)
 }
 
 type gateMsg struct{ ch chan struct{} }
@@ -344,9 +355,70 @@ func run(c TCase) (map[string]int, error) {
 			feat["busy-descendant"]++
 		}
 	}
+	// ---- third-party stops that overlap the shutdown
+	type concRun struct {
+		cs   ConcStop
+		ctx  chan struct{} // closed when the context is done
+		bad  atomic.Value  // string: what was wrong at the moment the context was done
+		sent chan struct{}
+	}
+	var concs []*concRun
+	issue := func(cr *concRun) {
+		var d <-chan struct{}
+		if cr.cs.How == "stop" {
+			d = e.Stop(h.nodes[cr.cs.Node].pid).Done()
+		} else {
+			d = e.Poison(h.nodes[cr.cs.Node].pid).Done()
+		}
+		close(cr.sent)
+		go func() {
+			<-d
+			id := h.idOf(cr.cs.Node)
+			j := strings.LastIndex(id, "/")
+			h.mu.Lock()
+			stamp := h.nodes[cr.cs.Node].stamp
+			h.mu.Unlock()
+			if stamp == 0 {
+				cr.bad.Store(fmt.Sprintf("the context of a third-party %s of %s became done before that actor had handled Stopped", cr.cs.How, id))
+			} else if e.Registry.GetPID(id[:j], id[j+1:]) != nil {
+				cr.bad.Store(fmt.Sprintf("the context of a third-party %s of %s became done while that actor was still registered", cr.cs.How, id))
+			}
+			close(cr.ctx)
+		}()
+	}
+	for _, cs := range c.Conc {
+		if cs.Node < 0 || cs.Node >= n || !sub[cs.Node] || !alive[cs.Node] {
+			continue
+		}
+		if c.How == "crash" && cs.Node == c.Target && cs.When != "after" {
+			// a stop that wins against the crash message would make the death a plain stop; keep
+			// the "crash" cases what their label says
+			continue
+		}
+		concs = append(concs, &concRun{cs: cs, ctx: make(chan struct{}), sent: make(chan struct{})})
+	}
+	if len(concs) > 0 {
+		feat["third-party-stop-overlapping-the-shutdown"]++
+	}
+	for _, cr := range concs {
+		if cr.cs.When == "before" {
+			issue(cr)
+		}
+		if cr.cs.Node == c.Target {
+			feat["second-stop-request-for-the-target"]++
+		}
+	}
+	start := make(chan struct{})
+	for _, cr := range concs {
+		if cr.cs.When == "race" {
+			cr := cr
+			go func() { <-start; issue(cr) }()
+		}
+	}
 	// ---- the shutdown
 	var done <-chan struct{}
 	tp := h.nodes[c.Target].pid
+	close(start)
 	switch c.How {
 	case "stop":
 		done = e.Stop(tp).Done()
@@ -359,6 +431,16 @@ func run(c TCase) (map[string]int, error) {
 	default:
 		return nil, nil
 	}
+	for _, cr := range concs {
+		if cr.cs.When == "after" {
+			issue(cr)
+		}
+	}
+	for _, cr := range concs {
+		if err := waitCh(cr.sent, "third-party stop call did not return"); err != nil {
+			return nil, err
+		}
+	}
 	for _, g := range gates {
 		close(g)
 	}
@@ -367,6 +449,19 @@ func run(c TCase) (map[string]int, error) {
 	}
 	if err := h.checkStopped(c.Target, fmt.Sprintf("%s of %s", c.How, h.idOf(c.Target))); err != nil {
 		return nil, err
+	}
+	// every overlapping request is signalled too: the whole subtree is stopped and unregistered
+	// by now, so nothing but goroutine scheduling can delay these contexts (DESIGN 1.3 rule 2)
+	for _, cr := range concs {
+		select {
+		case <-cr.ctx:
+		case <-time.After(5 * time.Second):
+			return nil, fmt.Errorf("the context of the third-party %s (%s the shutdown) of %s never became done although that actor has handled Stopped and is unregistered",
+				cr.cs.How, cr.cs.When, h.idOf(cr.cs.Node))
+		}
+		if b, _ := cr.bad.Load().(string); b != "" {
+			return nil, errors.New(b)
+		}
 	}
 	alive[c.Target] = false
 	for d := range sub {
@@ -472,13 +567,39 @@ func gen(t *rapid.T) TCase {
 		}
 	}
 	c.How = rapid.SampledFrom([]string{"stop", "poison", "poison", "crash"}).Draw(t, "how")
+	// overlapping third-party stops inside the subtree that is shut down
+	if rapid.IntRange(0, 2).Draw(t, "has_conc") > 0 {
+		var subtree []int
+		in := map[int]bool{c.Target: true}
+		for i := range c.Nodes {
+			if i > c.Target && in[c.Nodes[i].Parent] {
+				in[i] = true
+			}
+			if in[i] && !c.Nodes[i].Stillborn {
+				subtree = append(subtree, i)
+			}
+		}
+		nc := rapid.IntRange(1, 3).Draw(t, "nconc")
+		for i := 0; i < nc && len(subtree) > 0; i++ {
+			c.Conc = append(c.Conc, ConcStop{
+				Node: rapid.SampledFrom(subtree).Draw(t, "conc"),
+				How:  rapid.SampledFrom([]string{"stop", "poison"}).Draw(t, "conchow"),
+				When: rapid.SampledFrom([]string{"before", "after", "race", "race"}).Draw(t, "concwhen"),
+			})
+		}
+	}
 	return c
 }
 
 func TestTree(t *testing.T) {
 	st := vh.Test("TestTree")
+	f7 := vh.Open("F7", "C08")
 	rapid.Check(t, func(t *rapid.T) {
 		c := gen(t)
+		if f7 && len(c.Conc) > 0 {
+			c.Conc = nil
+			st.Exclude("F7: third-party stop overlapping the shutdown of an ancestor")
+		}
 		st.Begin(c)
 		feat, err := run(c)
 		if errors.Is(err, errInconclusive) || (err != nil && strings.HasPrefix(err.Error(), "harness: ")) {
@@ -495,7 +616,7 @@ func TestTree(t *testing.T) {
 		for k := range feat {
 			labels = append(labels, k)
 		}
-		nt := feat["subtree-depth>=2"] > 0 && (feat["busy-descendant"] > 0 || feat["child-stopped-on-its-own-first"] > 0 || feat["death-by-max-restarts"] > 0 || feat["child-died-in-its-own-Started"] > 0)
+		nt := feat["subtree-depth>=2"] > 0 && (feat["busy-descendant"] > 0 || feat["child-stopped-on-its-own-first"] > 0 || feat["death-by-max-restarts"] > 0 || feat["child-died-in-its-own-Started"] > 0 || feat["third-party-stop-overlapping-the-shutdown"] > 0)
 		st.Done(c, nt, labels...)
 	})
 }
